@@ -87,7 +87,7 @@ func runC02(c *Ctx) {
 	if fn := c.M(sx, "streamConn", "newServerStream"); fn != nil {
 		ok := false
 		for _, st := range storesToField(fn, ".xStream", "id", false) {
-			if call, isCall := st.Val.(*ssa.Call); isCall && methodName(call.Common()) == "GetRequestId" && stripIface(call.Common().Value) == ssa.Value(fn.Params[2]) {
+			if call, isCall := st.Val.(*ssa.Call); isCall && methodName(call.Common()) == "GetRequestId" && sameParam(stripIface(call.Common().Value), fn.Params[2]) {
 				ok = true
 			}
 		}
@@ -173,7 +173,7 @@ func runC02(c *Ctx) {
 			c.Fail("C02.R3", fk+":shape", fn.Pos(), "expected one table lookup, one delete and one OnReceive in handleResponse")
 		} else {
 			keyIsID := false
-			if call, ok := lookup.Index.(*ssa.Call); ok && methodName(call.Common()) == "GetRequestId" && stripIface(call.Common().Value) == ssa.Value(fn.Params[2]) {
+			if call, ok := lookup.Index.(*ssa.Call); ok && methodName(call.Common()) == "GetRequestId" && sameParam(stripIface(call.Common().Value), fn.Params[2]) {
 				keyIsID = true
 			}
 			c.Check("C02.R3", fk+":lookup-key", lookup.Pos(), keyIsID, "looked up by the response frame's request id", "the response is not looked up by its own request id")
@@ -231,7 +231,7 @@ func runC02(c *Ctx) {
 				nret++
 				v := stripConvNum(unspill(in.(*ssa.Return), 0))
 				call, ok := v.(*ssa.Call)
-				if ok && isAtomicCall(call.Common(), "AddUint64") && call.Common().Args[0] == ssa.Value(fn.Params[1]) {
+				if ok && isAtomicCall(call.Common(), "AddUint64") && sameParam(call.Common().Args[0], fn.Params[1]) {
 					if n, isC := constInt(call.Common().Args[1]); isC && n >= 1 {
 						continue
 					}
@@ -595,7 +595,7 @@ func c02WipedBuffers(c *Ctx) {
 			var obj ssa.Value
 			var st *types.Struct
 			forEachInstr(fn, false, func(_ *ssa.Function, in ssa.Instruction) {
-				if ta, ok := in.(*ssa.TypeAssert); ok && ta.X == ssa.Value(fn.Params[1]) {
+				if ta, ok := in.(*ssa.TypeAssert); ok && sameParam(ta.X, fn.Params[1]) {
 					if s := derefStruct(ta.AssertedType); s != nil {
 						st = s
 						obj = ta
